@@ -1,7 +1,7 @@
 """C08: the same content constructed in different orders (and under different hash seeds) must give the same bytes"""
 import copy
 from suites.common import exc_result, reflect
-from suites import ops_manifests as OM, ops_images as OI, docs_composeinfo as DC, docs_manifests as DM
+from suites import ops_manifests as OM, ops_images as OI, docs_composeinfo as DC, docs_manifests as DM, docs_treeinfo as DT
 
 EXC = (ValueError, TypeError, AttributeError, KeyError, IndexError)
 
@@ -45,11 +45,33 @@ def shuffle_desc(rng, desc):
     return [comp, rel, bp, shuffle_dict(rng, {k: tree(t) for k, t in tops.items()})]
 
 
+def shuffle_treeinfo(rng, d):
+    d = copy.deepcopy(d)
+    plats = list(d["tree"]["platforms"])
+    rng.shuffle(plats)
+    d["tree"]["platforms"] = plats
+
+    def var(v):
+        v["paths"] = shuffle_dict(rng, v["paths"])
+        v["children"] = shuffle_dict(rng, {k: var(c) for k, c in v["children"].items()})
+        return v
+    d["variants"] = shuffle_dict(rng, {k: var(v) for k, v in d["variants"].items()})
+    d["images"] = shuffle_dict(rng, {p: shuffle_dict(rng, t) for p, t in d["images"].items()})
+    d["checksums"] = shuffle_dict(rng, d["checksums"])
+    return d
+
+
 def generate(rng, n, k):
     R = reflect()
     cases = []
     for i in range(n):
-        kind = ["rpms", "modules", "extra", "images", "composeinfo"][i % 5]
+        kind = ["rpms", "modules", "extra", "images", "composeinfo", "treeinfo"][i % 6]
+        if kind == "treeinfo":
+            d = DT.gen_treeinfo(rng, R)
+            extra = rng.sample(["xen", "uefi", "bios", "pxe", "ppc64", "s390"], rng.randint(2, 5))    # several platforms besides the arch
+            d["tree"]["platforms"] = sorted(set(d["tree"]["platforms"]) | set(extra))
+            cases.append({"kind": kind, "desc": d, "orders": [shuffle_treeinfo(rng, d) for _ in range(k)]})
+            continue
         if kind in ("rpms", "modules", "extra"):
             ops = []
             while len(ops) < 6:
@@ -83,6 +105,8 @@ def to_model(c):
         return ["roundtrip_" + c["kind"], [c["compose"], c["ops"]]]
     if c["kind"] == "images":
         return ["roundtrip_images", [c["version"], c["compose"], c["pool"], c["ops"]]]
+    if c["kind"] == "treeinfo":
+        return ["dump_ti", [c["desc"], None]]
     return ["dump_ci", c["desc"]]
 
 
@@ -117,6 +141,12 @@ def impl(case):
                 except EXC:
                     pass
             outs.append(_dump_twice(im))
+        elif kind == "treeinfo":
+            try:
+                ti = DT.build_treeinfo(order)
+                outs.append(["ok", DT._dumps(ti, None), DT._dumps(ti, None)])
+            except EXC as e:
+                outs.append(["build-error", type(e).__name__])
         else:
             try:
                 outs.append(_dump_twice(DC.build(order)))
